@@ -33,6 +33,11 @@ CLAIMED = {
     "C18": ("ordering-domain truth tables of validators + validate-before-store dataflow",
             "Each validator accepts exactly its documented range (regions cut at documented and in-code constants, CFG walked per "
             "region); every new source of a bounded CONFIG field must cross the validator's pass edge before the save; who-may-write CONFIG.", "§4 C18"),
+    "C19": ("key provenance over all registry accesses + exists-edge reachability + reply-id matching + both-ends field provenance",
+            "Key functions concatenate what they sorted; every registry access is keyed through them (or the TMP copy); the 'exists' edge cannot reach "
+            "TMP write / Instantiate and identical assets are rejected; sub-message ids are dispatched by reply; TMP record == InstantiateMsg data, reply stores "
+            "response address + child's own LP token; remove = lookup then remove of the same key; router stores simulated routes and resolves hops via the configured factory. "
+            "Pagination completeness and key collisions: not decided.", "§4 C19"),
     "C20": ("ordering-domain truth table of the expiry guard + field-source tracing of id/start_time",
             "Creation effect reachable exactly when elapsed >= duration (and not before genesis); id = prev+1, start = prev+duration; "
             "epoch unchanged through the collector round trip; single writers; hooks prepared once and attached.", "§4 C20"),
